@@ -448,8 +448,11 @@ def r7_block_filled(facts):
                     any(isinstance(y, dict) and y.get('id') == fpar for y in walk(hblk['cond'])):
                 if any(wb != hb and fn.cfg.block_dominates(hb, wb) and fn.cfg.reaches(wb, hb) for wb, wj in writers):
                     writers.append((hb, -1))
+        abn = fn.cfg.abnormal_exit_blocks()
         for i in ends:
             blk = fn.cfg.blocks[i]
+            if i in abn:
+                continue        # the failing arm of an assert() / a noreturn call: no normal return
             last_j = len(blk['stmts'])
             if not any((wb == i and wj < last_j) or (wb != i and fn.cfg.block_dominates(wb, i)) for wb, wj in writers):
                 bad = blk['stmts'][-1]['loc'] if blk['stmts'] else fn.loc
